@@ -176,7 +176,7 @@ func (am AppModule) OnAcknowledgementPacket(
 			sdk.NewAttribute(types.AttributeKeyClass, data.Class),
 			sdk.NewAttribute(types.AttributeKeyId, data.Id),
 			sdk.NewAttribute(types.AttributeKeyUri, data.Uri),
-			sdk.NewAttribute(types.AttributeKeyAck, fmt.Sprintf("%v", ack)),
+			sdk.NewAttribute(types.AttributeKeyAck, ack.String()),
 		),
 	)
 
